@@ -425,6 +425,9 @@ def _gen_vhdx_locator(tier):
             for order in orders:
                 for rot in range(len(vals)):
                     yield {"keys": ks, "order": list(order), "rot": rot}
+            # strings stored once and shared between entries (equal offsets with different lengths)
+            for rot in range(len(vals)):
+                yield {"keys": ks, "order": "shared", "rot": rot}
 
 
 def _case_vhdx_locator(case, ctx):
